@@ -466,6 +466,8 @@ def play(w: World, history: list, nonce: str, fd: int) -> None:
                         pass
                     if op == 'Move':
                         loc.pop((f, m), None)
+        elif op == 'Select':
+            select(step[1])
         elif op == 'Expunge':
             if select(step[1]):
                 d.cmd(b'EXPUNGE', note)
@@ -529,8 +531,10 @@ def child_dump(cfg: Cfg, run_dir: str, tmp_dir: str, out_path: str, nonce: str,
         cond, resps, raw = d.cmd(b'LIST "" *')
         note('LIST', '', cond, resps, raw)
         if cond == 'OK':
+            # \Noselect names (a parent that is not itself a mailbox) are not mailboxes
             out['folders'] = [_list_name(r) for r in resps
-                              if r.kind == 'untagged' and r.name == b'LIST']
+                              if r.kind == 'untagged' and r.name == b'LIST'
+                              and not any(_val(a).lower() == b'\\noselect' for a in r.data[0])]
         relogin()
         cond, resps, raw = d.cmd(b'LSUB "" *')
         note('LSUB', '', cond, resps, raw)
@@ -626,19 +630,12 @@ def fork_call(fn, *args, timeout: float = 90.0) -> int:
     pid = os.fork()
     if pid == 0:
         try:
+            signal.alarm(int(timeout))
             fn(*args)
         finally:
             os._exit(4)
-    t0 = time.time()
-    while True:
-        wpid, status = os.waitpid(pid, os.WNOHANG)
-        if wpid:
-            break
-        if time.time() - t0 > timeout:
-            os.kill(pid, signal.SIGKILL)
-            os.waitpid(pid, 0)
-            return -9
-        time.sleep(0.0005)
+    # every child arms its own signal.alarm(): a hung child dies of SIGALRM
+    _wpid, status = os.waitpid(pid, 0)
     if os.WIFSIGNALED(status):
         return -os.WTERMSIG(status)
     return os.WEXITSTATUS(status)
@@ -808,7 +805,7 @@ class Abstraction:
         return op_label(op, self.user_dir, self.tmp_dir, self.cfg.layout)[0]
 
     def events(self, log: list, dump: dict | None, aged: list, ctl: list, k,
-               dump_log: list | None = None) -> tuple[list, dict]:
+               dump_log: list | None = None, halfmade: list | None = None) -> tuple[list, dict]:
         ev: list = []
         info = {'acks': 0, 'inflight': None, 'killed_before': None, 'after': None,
                 'exdev': False, 'bye_in_history': 0}
@@ -843,9 +840,9 @@ class Abstraction:
             info['after'] = self.label(ops[-2]) if len(ops) > 1 else 'start'
         ev.append({'e': 'crash', 'k': -1 if k is None else k,
                    'before': info['killed_before'] or 'end', 'after': info['after'] or 'start'})
-        ev.append({'e': 'restart', 'aged': len(aged), 'ctl': ctl})
+        ev.append({'e': 'restart', 'aged': len(aged), 'ctl': ctl, 'halfmade': halfmade or []})
         if dump is not None:
-            ev += self._dump_events(dump, dump_log or [])
+            ev += self._dump_events(dump, dump_log or [], info, halfmade or [])
         return ev, info
 
     def _cmd_event(self, kind: str, cmd: dict, ab: list, resps: list):
@@ -882,20 +879,34 @@ class Abstraction:
             return {'e': kind, 'op': 'other'}
         return None
 
-    def _dump_events(self, dump: dict, dump_log: list) -> list:
-        exdev_cmds = set()
-        for i, cmd in enumerate(split_commands(dump_log)):
-            if any(e.get('errno') == 18 for e in cmd['errs']):
-                exdev_cmds.add(cmd['sent']['line'].split(' ')[0].upper() + ':'
-                               + str(i))
-        exdev_any = bool(exdev_cmds)
+    def _dump_events(self, dump: dict, dump_log: list, info: dict, halfmade: list) -> list:
+        """A dump command that was not answered OK gets the narrow signature of the cause
+        when the failing execution itself shows one (else ''):
+          TempDirOtherFilesystemEXDEV  the restarted server's own operation log has an
+                        os.rename(<file in TMPDIR> -> control file) that failed with EXDEV
+          <Op>CrashBetween:mkdir(..)|mkdir(..)  the kill fell inside the mkdir sequence of a
+                        maildir and that directory is (inspected directly) without one of
+                        tmp/new/cur, and the failing command addresses that folder"""
+        exdev = False
+        for rec in dump_log:
+            if rec.get('k') == 'operr' and rec.get('errno') == 18:
+                exdev = True
+        mk = ''
+        if info.get('killed_before', '') and info['killed_before'].startswith('mkdir(') \
+                and (info.get('after') or '').startswith('mkdir(') and info.get('inflight'):
+            mk = f"{info['inflight']}CrashBetween:{info['after']}|{info['killed_before']}"
         served = []
         for c in dump['cmds']:
             ok = c['cond'] == 'OK' and not c['bug']
-            served.append({'cmd': c['cmd'], 'f': c['f'], 'ok': ok,
-                           'exdev': (not ok) and exdev_any})
+            sig = ''
+            if not ok:
+                if exdev and self.cfg.tmp_place == 'other':
+                    sig = 'TempDirOtherFilesystemEXDEV'
+                elif mk and c['f'] in halfmade:
+                    sig = mk
+            served.append({'cmd': c['cmd'], 'f': c['f'], 'ok': ok, 'sig': sig})
         if dump.get('harness_exc'):
-            served.append({'cmd': 'HARNESS', 'f': '', 'ok': False, 'exdev': False})
+            served.append({'cmd': 'HARNESS', 'f': '', 'ok': False, 'sig': ''})
         out = [{'e': 'served', 'cmds': served}]
         boxes = []
         for b in dump['boxes']:
@@ -949,6 +960,32 @@ def control_files(run_dir: str, layout: str) -> list:
     return out
 
 
+def half_made(run_dir: str, layout: str) -> list:
+    """folder names whose directory exists without one of tmp/new/cur (direct inspection)"""
+    ud = os.path.join(run_dir, USER)
+    out = []
+    if not os.path.isdir(ud):
+        return out
+
+    def incomplete(p):
+        return not all(os.path.isdir(os.path.join(p, s)) for s in ('tmp', 'new', 'cur'))
+    if incomplete(ud):
+        out.append('INBOX')
+    if layout == '++':
+        for e in sorted(os.listdir(ud)):
+            p = os.path.join(ud, e)
+            if e.startswith('.') and os.path.isdir(p) and incomplete(p):
+                out.append(e[1:].replace('.', '/'))
+    else:
+        for root, dirs, _files in os.walk(ud):
+            dirs[:] = [d for d in dirs if d not in ('tmp', 'new', 'cur')]
+            for d in sorted(dirs):
+                p = os.path.join(root, d)
+                if incomplete(p):
+                    out.append(os.path.relpath(p, ud))
+    return out
+
+
 def run_job(job: dict) -> dict:
     """executed in a pool worker.  job: {cfg: (layout, place, store_root, tmp_root, same_tmp),
     history, hid, nonce, virgin, points: None | [k...]}"""
@@ -990,7 +1027,8 @@ def run_job(job: dict) -> dict:
                                         + str([r for r in log if r.get('k') == 'harness-exc'])[:600])
                 return None, log
             ctl = control_files(rd, layout)
-            aged = age_locks(rd)
+            hm = half_made(rd, layout)
+            aged = age_locks(rd) if job.get('age_locks', True) else []
             if aged:
                 res['aged_total'] += len(aged)
                 res['aged_runs'] += 1
@@ -1007,9 +1045,9 @@ def run_job(job: dict) -> dict:
                 res['machinery'].append(f'dump after k={k} of history {job["hid"]} exited {st2}: '
                                         + str((dump or {}).get('harness_exc'))[:600])
                 return None, log
-            ev, info = ab.events(log, dump, aged, ctl, k, read_log(dlog_path))
-            return {'k': -1 if k is None else k, 'events': ev, 'info': info,
-                    'aged': aged}, log
+            ev, info = ab.events(log, dump, aged, ctl, k, read_log(dlog_path), hm)
+            return {'k': -1 if k is None else k, 'events': ev, 'info': info, 'aged': aged,
+                    'failed_cmds': [c for c in dump['cmds'] if c['cond'] != 'OK' or c['bug']][:6]}, log
 
         tr, log = one(None)
         if tr is None:
@@ -1037,3 +1075,70 @@ def run_job(job: dict) -> dict:
     finally:
         shutil.rmtree(work, ignore_errors=True)
     return res
+
+
+# ---------------------------------------------------------------------------------------
+# two measured observations that are recorded in the evidence
+
+
+def provisioning_probe(layout: str, store_root: str, other_tmp: str) -> dict:
+    """creating the first user with the temp directory on another filesystem"""
+    work = tempfile.mkdtemp(prefix='verif.c15.prov.', dir=store_root)
+    out_path = os.path.join(work, 'out.json')
+
+    def child():
+        res = {'ok': False, 'errno': None, 'exc': ''}
+        try:
+            _set_tmp(other_tmp)
+            World('maildir', users={USER: PASSWORD}, layout=layout,
+                  maildir_dir=os.path.join(work, 'store'))
+            res['ok'] = True
+        except OSError as exc:
+            res['errno'] = exc.errno
+            res['exc'] = repr(exc)[:200]
+        except BaseException as exc:
+            res['exc'] = repr(exc)[:200]
+        with open(out_path, 'w') as f:
+            json.dump(res, f)
+        os._exit(0)
+    try:
+        fork_call(child)
+        with open(out_path) as f:
+            res = json.load(f)
+        res['st_dev_store'] = os.stat(store_root).st_dev
+        res['st_dev_tmp'] = os.stat(other_tmp).st_dev
+        res['leaked_temp_files'] = len([x for x in os.listdir(other_tmp) if x.startswith('tmp')])
+        return res
+    except Exception as exc:
+        return {'ok': False, 'errno': None, 'exc': 'probe failed: ' + repr(exc)}
+    finally:
+        shutil.rmtree(work, ignore_errors=True)
+
+
+def stale_lock_probe(job_base: dict) -> dict:
+    """kill while dovecot-uidlist.lock is held, restart WITHOUT ageing the lock"""
+    hist = [['Append', 'INBOX', []]]
+    j0 = dict(job_base, history=hist, hid=-1, virgin=False, points=[])
+    r0 = run_job(j0)
+    ops = r0.get('clean_ops') or []
+    ks = [i for i in range(1, len(ops)) if ops[i - 1] == 'open-x(uidlist.lock)'
+          and ops[i].startswith('mktemp')]
+    if not ks:
+        return {'measured': False, 'why': 'no lock-holding crash point found', 'ops': ops}
+    j1 = dict(j0, points=[ks[0]], age_locks=False)
+    r1 = run_job(j1)
+    tr = r1['traces'][-1] if len(r1['traces']) > 1 else None
+    if tr is None:
+        return {'measured': False, 'why': str(r1['machinery'])[:300]}
+    served = next(e for e in tr['events'] if e['e'] == 'served')
+    failed = [f"{c['cmd']} {c['f']}" for c in served['cmds'] if not c['ok']]
+    j2 = dict(j0, points=[ks[0]], age_locks=True)
+    r2 = run_job(j2)
+    tr2 = r2['traces'][-1]
+    served2 = next(e for e in tr2['events'] if e['e'] == 'served')
+    return {'measured': True, 'kill_before_op': ks[0], 'op': ops[ks[0]],
+            'without_ageing_failed_commands': failed,
+            'without_ageing_answers': [c.get('raw', '')[:80] for c in tr.get('failed_cmds', [])][:3],
+            'after_ageing_failed_commands': [f"{c['cmd']} {c['f']}" for c in served2['cmds']
+                                             if not c['ok']],
+            'expiry_s': LOCK_EXPIRY}
